@@ -80,6 +80,15 @@ extern int vt_below(vt_rng_t *r, int n);	/* uniform 0..n-1 */
 extern double vt_unit(vt_rng_t *r);		/* [0,1) */
 extern double vt_normal(vt_rng_t *r);
 
+/* ---- CPU-time watchdog ----
+ * Hang detection must not depend on the load of the machine: the timer counts
+ * CPU time consumed by this process (ITIMER_PROF), so it fires for a call that
+ * spins, and does not fire because other processes hog the cores.
+ * handler is called (in signal context) when `cpu_seconds` of process CPU time
+ * have been used since start; stop with vt_watchdog_stop(). */
+extern void vt_watchdog_start(int cpu_seconds, void (*handler)(int));
+extern void vt_watchdog_stop(void);
+
 /* ---- crash reporting ---- */
 extern void vt_install_crash_handlers(void);
 
